@@ -27,7 +27,9 @@ func (w *chainWorld) Key() [32]byte { return w.n.Key(false) }
 // equivalent to the original as long as the manager keeps no chain state outside the store; the BFS
 // re-validates that by replaying every new state's history on a fresh instance (ValidateReplay).
 func (w *chainWorld) Clone() bfs.World {
-	return &chainWorld{u: w.u, n: node.Open(w.u, w.n.DB.CloneDB())}
+	c := &chainWorld{u: w.u, n: node.Open(w.u, w.n.DB.CloneDB())}
+	c.n.Obs.First = w.n.Obs.First // a divergence of the expiration lists taints every later state
+	return c
 }
 
 // submitOp is a block submission.
